@@ -201,7 +201,7 @@ inline void runInterleaving(Ctx& c, const History& h, const std::vector<int>& or
             c.violation(got.size() < f.completes.size() ? "C05:message-not-delivered" : "C05:unexpected-delivery", buf, input());
         }
         if (model.size() != f.completes.size())
-            c.violation("C05:harness-model-disagrees-with-script", "reference model and generation script disagree (harness bug)", input());
+            c.violation("harness:C05-model-disagrees-with-script", "reference model and generation script disagree (harness bug, not a verdict on the library)", input());
         size_t n = std::min(got.size(), f.completes.size());
         for (size_t i = 0; i < n; ++i)
         {
